@@ -99,7 +99,10 @@ Proof.
   destruct a; cbv beta iota in H2;
     try (apply bind_ok in H2; destruct H2 as [s2 [H2 H3]]; inversion H3; subst;
          exists s1; split; assumption).
-  inversion H2; subst. exists s'. split; [assumption|]. reflexivity.
+  - inversion H2; subst. exists s'. split; [assumption|]. reflexivity.
+  - destruct (execute_action s1 signer tx idx (AIbcRelayFailing k, cap)) as [s2|e] eqn:E;
+      [|discriminate H2].
+    exfalso. exact (execute_relay_failing_never_ok s1 signer tx idx (AIbcRelayFailing k, cap) k s2 eq_refl E).
 Qed.
 
 Lemma c04_put_lasttx_frame s x t :
